@@ -36,7 +36,11 @@ def modelFormat (impl : Fields) (pfx : String) : Fields × Option ParseResult ×
     let rp := match impl.get (pfx ++ "r") with
       | some _ => [(pfx ++ "r", "1")]
       | none => []
-    (m.fields ++ second ++ rp ++ h, some r, again)
+    -- a fresh process prints the same bytes: the model has no process state
+    let xp := match impl.get (pfx ++ "x") with
+      | some _ => [(pfx ++ "x", "1")]
+      | none => []
+    (m.fields ++ second ++ rp ++ xp ++ h, some r, again)
 
 /-! ### C02 -/
 
@@ -162,7 +166,7 @@ def runCase (prop : Prop') (inp obs : String) : CaseResult :=
       (a && b && c && d && a' && b' && c' && d', !a || !a' || !c || !c' , !b || !b')
   let (sm, mn, mc) := stmt model
   let (si, inn, ic) := stmt impl
-  let history := !(impl.is "F.h" "0") && !(impl.is "L.h" "0") && !(impl.is "F.r" "0")
+  let history := !(impl.is "F.h" "0") && !(impl.is "L.h" "0") && !(impl.is "F.r" "0") && !(impl.is "F.x" "0")
   let si := si && history
   -- C03 also checks, on the real lexer's streams, the lexer fact the exactly-one-newline theorem assumes
   let lf := prop != .c03 || ["F.toks", "L.toks", "F.n.toks", "F.c.toks"].all fun k =>
@@ -185,6 +189,8 @@ def runCase (prop : Prop') (inp obs : String) : CaseResult :=
     klass :=
       -- which run is `prog` from: its re-parses decide whether a failure is re-association only
       let again := if valid model "F." then fagain else lagain
-      if history then classify prog (mn || inn) (mc || ic) (assocOnly false prog (again.lookup "n")) (assocOnly true prog (again.lookup "c")) else "" }
+      if history && (mn || inn || mc || ic) then
+        classify prog (mn || inn) (mc || ic) (assocOnly false prog (again.lookup "n")) (assocOnly true prog (again.lookup "c"))
+      else "" }
 
 end Grol.FormatSuite
